@@ -3397,6 +3397,20 @@ impl Zeroconf {
                     continue;
                 }
 
+                // If the host name was changed by conflict resolution on this
+                // interface, the SRV target and the address records must use the
+                // new name, as the announcements do.
+                let renamed_host;
+                let service = match dns_registry.name_changes.get(service.get_hostname()) {
+                    Some(new_hostname) => {
+                        let mut renamed = service.clone();
+                        renamed._set_hostname(new_hostname.to_string());
+                        renamed_host = renamed;
+                        &renamed_host
+                    }
+                    None => service,
+                };
+
                 add_answer_of_service(
                     &mut out,
                     &msg,
